@@ -212,6 +212,9 @@ func (ex *Exec) initIntrinsics() {
 	}
 	// strings.Fields / strings.Join / strings.Builder use unsafe tricks (noescape, unsafe.String) the
 	// interpreter does not model; on concrete arguments they are evaluated natively (pure functions).
+	// Clone copies a string with unsafe.String; strings are values here, the copy is the string itself
+	in["internal/stringslite.Clone"] = func(ex *Exec, st *State, args []Value, site ssa.CallInstruction) Value { return args[0] }
+	in["strings.Clone"] = in["internal/stringslite.Clone"]
 	in["strings.Fields"] = func(ex *Exec, st *State, args []Value, site ssa.CallInstruction) Value {
 		s := args[0].(StrV)
 		if !s.Conc {
